@@ -729,6 +729,13 @@ def parse_vc(path):
                     if not m2:
                         raise ExtractError(f'{path}: bad #wrap-postfix (need `sha=<hash> /start/ /postfix/ = func`): {s2}')
                     fn.setdefault('wrap_postfix', []).append((m2.group(2), m2.group(3), m2.group(4).strip(), m2.group(1)))
+                elif s2.startswith('#abstract-expr-all '):
+                    # R7e, every occurrence (for constants that a body may mention any number of times): all matches
+                    # must be the same text (pinned by hash)
+                    m2 = re.match(r'#abstract-expr-all\s+sha=(\w+)\s+/(.+)/\s*=\s*(.+)$', s2)
+                    if not m2:
+                        raise ExtractError(f'{path}: bad #abstract-expr-all (need `sha=<hash> /regex/ = expr`): {s2}')
+                    fn.setdefault('abstract_exprs', []).append((m2.group(2), m2.group(3).strip(), m2.group(1), 'all'))
                 elif s2.startswith('#abstract-expr '):
                     # R7e: `#abstract-expr sha=<hash> /regex/ = replacement-expression`
                     m2 = re.match(r'#abstract-expr\s+sha=(\w+)\s+/(.+)/\s*=\s*(.+)$', s2)
@@ -982,7 +989,8 @@ def extract_fn(repo, spec, features):
     # ---- R7e: expression abstraction.  A contiguous token range of the body whose compact text (tokens
     # joined without spaces) is matched EXACTLY by the regex is replaced by a call to an assumed-contract
     # function.  Pinned strictly by hash like R7; refused if the range contains tokens that can mutate.
-    for (rx, repl, want_sha) in spec.get('abstract_exprs', []):
+    for ae in spec.get('abstract_exprs', []):
+        (rx, repl, want_sha), every = ae[:3], (len(ae) > 3)
         live = [j for j in range(bo + 1, bc) if alive(T[j]) and T[j].kind != 'comment']
         offs, acc = [], 0
         for j in live:
@@ -990,6 +998,24 @@ def extract_fn(repo, spec, features):
             acc += len(T[j].text)
         compact_txt = ''.join(T[j].text for j in live)
         ms = [m for m in re.finditer(rx, compact_txt) if m.start() in offs and (m.end() in offs or m.end() == acc)]
+        if every and len(ms) == 0:
+            log.append({'step': 'note', 'abstract_expr_all_no_occurrence': rx})
+            continue
+        if every and len(ms) >= 1 and len({m_.group(0) for m_ in ms}) == 1:
+            have_sha = hashlib.sha256(ms[0].group(0).encode()).hexdigest()[:16]
+            if have_sha != want_sha:
+                raise ExtractError(f'abstracted expression /{rx}/ in {spec["name"]} changed (sha {have_sha}, reviewed {want_sha})')
+            for m_ in ms:
+                a_ = live[offs.index(m_.start())]
+                e_i = offs.index(m_.end()) if m_.end() in offs else len(live)
+                e_ = live[e_i - 1]
+                if any(T[j].kind == 'punct' and T[j].text in '([{)]}' for j in range(a_, e_ + 1)):
+                    raise ExtractError(f'/{rx}/ in {spec["name"]}: #abstract-expr-all is for bracket-free expressions')
+                edits.add(T[a_].start, T[e_].end, repl, 'rewrite', 'R7e abstract expr')
+                dropped.append((T[a_].start, T[e_].end))
+            log.append({'step': 'R7e', 'line': sf.line_of(T[live[offs.index(ms[0].start())]].start), 'occurrences': len(ms),
+                        'abstracted_unverified': ms[0].group(0)[:400], 'replaced_by': repl})
+            continue
         if len(ms) != 1:
             raise ExtractError(f'lost anchor: expression /{rx}/ in {spec["name"]} ({len(ms)} matches)')
         m = ms[0]
@@ -1146,6 +1172,27 @@ def extract_fn(repo, spec, features):
         #      (same variable names as shape C, so that an annotation written for the reverse loop is checked
         #       against the forward loop instead of losing its anchor)
         mD = None if mC else re.fullmatch(r'for (\w+) in (.+) \. into_iter \( \)', txt)
+        #   D': for X in PATH   (a plain path expression: `for x in v` IS `for x in v.into_iter()`)
+        mD2 = None if (mA or mB or mC or mD) else re.fullmatch(r'for (\w+) in ' + PATH, txt)
+        #   E: for I in ( 0 .. <EXPR> ) . rev ( )            (descending index range; EXPR is evaluated once)
+        #      -> let mut I = <EXPR>; while I > 0 { I -= 1; B }
+        mE = re.fullmatch(r'for (\w+) in \( 0 \. \. (.+) \) \. rev \( \)', txt)
+        if mE and not (mA or mB or mC or mD):
+            ivar = mE.group(1)
+            k_in = li + 1
+            while not is_id(T[k_in], 'in'):
+                k_in += 1
+            # tokens: in ( 0 . . EXPR ) . rev ( )   -> EXPR = from the 5th token after `in` to the `)` closing the range
+            expr_src = sf.text[T[k_in + 5].start:T[b - 5].start].strip()
+            head = f'let mut {ivar} = {expr_src}; while {ivar} > 0 '
+            bind = f' {ivar} -= 1;'
+            edits.add(T[li].start, T[b].start, head, 'rewrite', 'R2 header')
+            edits.add(T[b].end, T[b].end, bind, 'rewrite', 'R2 bind')
+            log.append({'step': 'R2', 'line': sf.line_of(T[li].start), 'before': txt.replace(' ', ''),
+                        'after': head + '{' + bind + ' .. }'})
+            continue
+        if mD2:
+            mD = mD2
         if not (mA or mB or mC or mD):
             raise ExtractError(f'R2 does not apply to loop {n_} of {spec["name"]}: {txt}')
         if (mC or mD) and not (mA or mB):
@@ -1154,7 +1201,8 @@ def extract_fn(repo, spec, features):
             while not is_id(T[k_in], 'in'):
                 k_in += 1
             # expression text: tokens after `in` up to the `. into_iter ( ) [. rev ( )]` suffix (8 / 4 tokens)
-            expr_src = sf.text[T[k_in + 1].start:T[b - (8 if mC else 4)].start].strip()
+            expr_src = sf.text[T[k_in + 1].start:T[b - (8 if mC else (4 if not mD2 else 0))].start].strip() if not mD2 else \
+                sf.text[T[k_in + 1].start:T[b].start].strip()
             ivar = f'verif_k_{n_}'
             vvar = f'verif_rev_{n_}'
             amp = '' if n_ in spec.get('enum_loops_copy', []) else '&'
